@@ -284,6 +284,7 @@ def check_mine_block(ctx, oid="C04.4"):
                 if isinstance(v, T):
                     if v.op == "app" and v.args[0] == "bits.blockchain.merkle_root":
                         out.append(v)
+                        return  # (the witness root inside the coinbase's own commitment is not the header's)
                     for a in v.args:
                         _roots_in(a, out, seen)
                 elif isinstance(v, (list, tuple)):
